@@ -95,7 +95,7 @@ func (n *zzStub) FindSuccessor(key uint64) (chord.VNode, error) {
 	}
 	// the clockwise distance to the key must strictly decrease with every hop: next in (from, key]
 	rt.Assert(chord.Between(n.from, n.id, key, true), "lookup-forwarded-only-to-a-node-closer-to-the-key")
-	return &zzStub{id: n.ring.owner(key), ring: n.ring, from: n.from}, nil
+	return &zzStub{id: n.ring.owner(key), ring: n.ring, from: n.from, joinCalls: n.joinCalls}, nil
 }
 func (n *zzStub) GetSuccessors() ([]chord.VNode, error) { return nil, nil }
 func (n *zzStub) GetPredecessor() (chord.VNode, error)  { return nil, nil }
